@@ -61,4 +61,10 @@ CLAIMED['C11'] = {
   'technique': 'Coq proofs (invariants over all interleavings of the parent/child model, induction over macrostep sequences) + forced-schedule replay on the real invoker',
 }
 
+CLAIMED['C08'] = {
+  'text': 'Models Fifo.v (the queue as atomic operations and at lock/read/write/unlock granularity, any number of producers, any merge with the consumer) and StepCtl.v (the control flow of step() around the queues, one model for both engines, skeleton regenerated from the source). 16 theorems, unbounded: dequeued ++ queued = enqueue order for every schedule; exactly-once/at-most-once as Permutation, per-producer prefix order; lock-level runs equal their linearisation; refuted without the lock; dequeueExternal only directly after an empty dequeueInternal with no event-less transition enabled, internal and external FIFO; the pinned control flow is _refuted for event-less reselection and unnamed events (both since fixed). Lock discipline inventory and the 36 step() landmarks are regenerated from the source every run. Correspondence: forced schedules of <=3 producers x <=3 events (all interleavings up to a block bound), control-flow scripts on random charts, both engines; thorough adds random schedules, a 16x10^4 stress run and TSan.',
+  'note': 'Trusted: Coq kernel (closed), extraction, Fifo.v/StepCtl.v as hand models, the two translators, vd_fifo.cpp, vd_sched.h; std::recursive_mutex / condition_variable_any semantics and the C++ memory model below the mutex are assumed. reset() is covered by theorem and inventory only.',
+  'technique': 'Coq proofs (induction over schedules, lock-level refinement, control-flow invariant) + regenerated lock/landmark inventories + forced-schedule replay',
+}
+
 NOT_APPLICABLE = {p: _PENDING for p in ['C%02d' % i for i in range(1, 21)] if p not in CLAIMED}
